@@ -1,4 +1,131 @@
-import SqlObjVerif.Model.Version
+import SqlObjVerif.Lemmas.Version
+/-!
+# C20 — versioning records the exact history of a row and can restore any point; versions of
+different masters never mix
+
+Property theorems only.  `versionsOf s m` is `[v.values for v in master_m.versions]` (id order),
+`rowOf? s.masters m` the current row, `s.hist m` the ghost list of the successive states of row `m`
+(appended by every *successful* create / update — Model/Version.lean).
+-/
 namespace SqlObjVerif.Version
-theorem C20_stub : (vstep ⟨1, [], false⟩ vinit (.restore 1)).2 = .nohandle := rfl
+open SqlObjVerif.Events
+
+/-- **versions are the history** — for every configuration, every number of masters and every
+    history of create / assign / set / restore in which no update fails: after the history, for
+    every master `m` that exists, the versions of `m` (oldest first) followed by the current row
+    of `m` are exactly the successive states row `m` went through. -/
+theorem C20_versions_are_history_partial (c : VCfg) (ops : List VOp) (hnf : noFailedUpdate c vinit ops = true)
+    (m : Nat) (row : List Val) (hm : rowOf? (vrun c vinit ops).masters m = some row) :
+    versionsOf (vrun c vinit ops) m ++ [row] = (vrun c vinit ops).hist m :=
+  (hinv_run c ops vinit hinv_init hnf).hist m row hm
+
+/-- the statement without the "no update fails" hypothesis -/
+def VersionsAreHistory : Prop :=
+  ∀ (c : VCfg) (ops : List VOp) (m : Nat) (row : List Val),
+    rowOf? (vrun c vinit ops).masters m = some row →
+      versionsOf (vrun c vinit ops) m ++ [row] = (vrun c vinit ops).hist m
+
+/-- **the full statement is false of the code**: the snapshot is taken on the before-event, so
+    `m = Master(c0=1); m.c0 = <rejected value>` leaves one version although the row has had a
+    single state.  (Replayed on the real code on every run: `C20:failed-update-appends-version`.) -/
+theorem C20_versions_are_history_full_FALSE : ¬ VersionsAreHistory := by
+  intro h
+  have := h ⟨1, [.null], false⟩ [.create [(0, .int 1)], .assign 1 0 .bad] 1 [.int 1] (by decide)
+  revert this
+  decide
+
+/-- **restore**: restoring version `v` of an existing master (when the update goes through) makes
+    the master row equal to `v`'s values, records the overwritten state as the newest version of
+    that master, and touches no other row. -/
+theorem C20_restore_spec (c : VCfg) (s : VState) (vid : Nat) (v : VRow) (row : List Val)
+    (hv : s.versions.find? (fun v => v.vid = vid) = some v)
+    (hr : rowOf? s.masters v.master = some row) (hlen : row.length = v.vals.length)
+    (hok : (vRestore c s vid).2 = .ok) :
+    rowOf? (vRestore c s vid).1.masters v.master = some v.vals
+    ∧ (vRestore c s vid).1.versions = s.versions ++ [⟨s.nextV, v.master, row⟩]
+    ∧ ∀ m', m' ≠ v.master → rowOf? (vRestore c s vid).1.masters m' = rowOf? s.masters m' := by
+  simp only [vRestore, hv, vUpdateVec, hr] at hok ⊢
+  split
+  · rename_i h; simp [h] at hok
+  · split
+    · rename_i h; simp at h
+    · split
+      · rename_i h1 h2 h3; simp [h1, h3] at hok
+      · split
+        · rename_i he
+          have : v.vals = [] := by
+            cases hvv : v.vals with
+            | nil => rfl
+            | cons y ys => simp [vecEmpty, hvv] at he
+          have hrow : row = [] := by
+            rw [this] at hlen; simpa using hlen
+          simp [hr, hrow, this]
+        · refine ⟨?_, rfl, ?_⟩
+          · simp only [rowOf_updRows, if_true, hr, Option.map_some, applyVec_map_some row v.vals hlen]
+          · intro m' hm'
+            simp only [rowOf_updRows, hm', if_false]
+
+/-- **masters never mix**, for every operation and every outcome (failing updates included): an
+    update aimed at master `m` leaves the version list of every other master as it was, and the one
+    version row it appends is a copy of the current row of `m` itself, filed under `m`; a create
+    appends no version. -/
+theorem C20_masters_disjoint (c : VCfg) (s : VState) (m : Nat) (vec : List (Option Val)) (unk : Bool) (kw : Kw) :
+    (∀ m', m' ≠ m → versionsOf (vUpdateVec c s m vec unk).1 m' = versionsOf s m')
+    ∧ (∀ v ∈ (vUpdateVec c s m vec unk).1.versions,
+        v ∈ s.versions ∨ (v.master = m ∧ rowOf? s.masters m = some v.vals))
+    ∧ (vCreate c s kw).1.versions = s.versions := by
+  refine ⟨?_, ?_, ?_⟩
+  · intro m' hm'
+    unfold vUpdateVec
+    cases hr : rowOf? s.masters m with
+    | none => rfl
+    | some row =>
+      have hne : ¬ m = m' := fun h => hm' h.symm
+      simp only []
+      split
+      · simp [versionsOf, List.filter_append, hne]
+      · split
+        · simp [versionsOf, List.filter_append, hne]
+        · split
+          · simp [versionsOf, List.filter_append, hne]
+          · split <;> simp [versionsOf, List.filter_append, hne]
+  · intro v hv
+    unfold vUpdateVec at hv
+    cases hr : rowOf? s.masters m with
+    | none => simp only [hr] at hv; exact Or.inl hv
+    | some row =>
+      simp only [hr] at hv
+      have key : v ∈ s.versions ++ [⟨s.nextV, m, row⟩] → v ∈ s.versions ∨ (v.master = m ∧ some row = some v.vals) := by
+        intro h
+        simp only [List.mem_append, List.mem_singleton] at h
+        rcases h with h | rfl
+        · exact Or.inl h
+        · exact Or.inr ⟨rfl, rfl⟩
+      split at hv
+      · exact key hv
+      · split at hv
+        · exact key hv
+        · split at hv
+          · exact key hv
+          · split at hv <;> exact key hv
+  · unfold vCreate
+    simp only []
+    split
+    · rfl
+    · split
+      · rfl
+      · split <;> rfl
+
+/-! ## non-vacuity -/
+
+/-- two masters, interleaved updates and a restore: the hypothesis holds and the lists are non-trivial -/
+example :
+    let c : VCfg := ⟨2, [.int 100, .int 101], false⟩
+    let ops : List VOp := [.create [(0, .int 1)], .create [(0, .int 2)], .assign 1 1 (.int 5), .set 2 [(0, .int 3)],
+      .assign 1 0 (.int 9), .restore 1]
+    noFailedUpdate c vinit ops = true
+    ∧ versionsOf (vrun c vinit ops) 1 = [[.int 1, .int 101], [.int 1, .int 5], [.int 9, .int 5]]
+    ∧ rowOf? (vrun c vinit ops).masters 1 = some [.int 1, .int 101]
+    ∧ versionsOf (vrun c vinit ops) 2 = [[.int 2, .int 101]] := by decide
+
 end SqlObjVerif.Version
